@@ -231,3 +231,92 @@ func WideDocs() []interface{} {
 	)
 	return out
 }
+
+// MemberDocs are documents {"c": container, "a": ?, "b": ?} whose container members hit, miss
+// or mistype the operand paths @.a / @.b / @[0] (and $.a / $.b at the root): the shapes filter
+// expressions are about, larger than the node bound of Docs allows. Members of one container are
+// pairwise distinct (they carry "z": position).
+func MemberDocs() []interface{} {
+	member := func(kind, i int) interface{} {
+		z := float64(100 + i)
+		switch kind {
+		case 0:
+			return float64(7 + i)
+		case 1:
+			return "s"
+		case 2:
+			return map[string]interface{}{"z": z}
+		case 3:
+			return map[string]interface{}{"a": 1.0, "z": z}
+		case 4:
+			return map[string]interface{}{"a": 2.0, "z": z}
+		case 5:
+			return map[string]interface{}{"a": "a", "z": z}
+		case 6:
+			return map[string]interface{}{"b": 1.0, "z": z}
+		case 7:
+			return map[string]interface{}{"a": 1.0, "b": 2.0, "z": z}
+		case 8:
+			return map[string]interface{}{"a": nil, "b": true, "z": z}
+		case 9:
+			return []interface{}{1.0, z}
+		case 10:
+			return map[string]interface{}{"a": []interface{}{1.0, 2.0}, "z": z}
+		case 11:
+			return map[string]interface{}{"a": map[string]interface{}{"a": 1.0}, "b": []interface{}{1.0}, "z": z}
+		}
+		panic("kind")
+	}
+	const kinds = 12
+	var seqs [][]int
+	for a := 0; a < kinds; a++ {
+		seqs = append(seqs, []int{a})
+		for b := 0; b < kinds; b++ {
+			seqs = append(seqs, []int{a, b})
+		}
+	}
+	for _, a := range []int{2, 3, 7} {
+		for _, b := range []int{0, 3, 4} {
+			for _, c := range []int{3, 6, 10} {
+				seqs = append(seqs, []int{a, b, c})
+			}
+		}
+	}
+	roots := []map[string]interface{}{
+		{},
+		{"a": 1.0, "b": 2.0},
+		{"a": []interface{}{1.0, 2.0}, "b": map[string]interface{}{"a": 1.0}},
+	}
+	var out []interface{}
+	for si, seq := range seqs {
+		for ri, r := range roots {
+			if ri > 0 && len(seq) == 2 && si%3 != 0 {
+				continue // root values for every third two-member sequence
+			}
+			for _, object := range []bool{false, true} {
+				if object && (len(seq) == 1 || si%2 == 1) {
+					continue
+				}
+				doc := map[string]interface{}{}
+				for k, v := range r {
+					doc[k] = Clone(v)
+				}
+				if object {
+					m := map[string]interface{}{}
+					for i, k := range seq {
+						m[string(rune('p'+i))] = member(k, i)
+					}
+					doc["c"] = m
+				} else {
+					var arr []interface{}
+					for i, k := range seq {
+						arr = append(arr, member(k, i))
+					}
+					doc["c"] = arr
+				}
+				out = append(out, doc)
+			}
+		}
+	}
+	return out
+}
